@@ -45,7 +45,8 @@ pub fn gen_address(src: &mut Src) -> (Address, String) {
         4 => {
             let path = PathBuf::from(OsString::from_vec(gen_bytes(src, true)));
             let arg0 = if src.bool() { Some(OsString::from_vec(gen_bytes(src, true))) } else { None };
-            let n = src.below(4);
+            // (ten and more arguments too: argv10 sorts before argv2 as a string)
+            let n = if src.chance(50) { 9 + src.below(5) } else { src.below(4) };
             let args = (0..n).map(|_| OsString::from_vec(gen_bytes(src, true))).collect();
             Transport::Unixexec(Unixexec::new(path, arg0, args))
         }
